@@ -235,7 +235,9 @@ def r5(ctx: Ctx) -> None:
         ctx.fail('C20.R5', mg, 'backup', 'the CSV is neither moved nor kept (no backup step)', mg.node)
     for e in moves:
         d = src(e.dest) if e.dest is not None else ''
-        ok = e.dest is not None and src(e.path) in d and ".bak" in d and 'param:csv_file' in fl.atoms(e.path, e.node)
+        # the backup is the CSV's own path with a .bak suffix (whatever else is appended to keep an older backup): by provenance, not by text
+        da = fl.atoms(e.dest, e.node) if e.dest is not None else set()
+        ok = e.dest is not None and 'param:csv_file' in da and any(a.startswith('const:') and '.bak' in a for a in da) and 'param:csv_file' in fl.atoms(e.path, e.node)
         ctx.check(ok, 'C20.R5', mg, 'backup', f'original kept as {d}', f'{e.label} -> {d!r}: the original rules are not kept next to the new file', e.node)
         g = fl.cfg.guard_literals(fl.stmt_of(e.node))
         ctx.check(('backup', True) in g, 'C20.R5', mg, 'backup-flag', 'moved only when backup is requested (callers pass backup=True)', f'move under {sorted(g)}', e.node)
